@@ -11,5 +11,11 @@ CONSTANTS
   MaxRestarts = 1
   Kinds = {"waive", "stale", "equal", "future", "far", "neg", "negbig"}
   Pols = {"leader", "none"}
+  Vias = {"api", "subj", "nats", "natsq", "plain"}
+  MaxHolds = 2
+  MaxSnaps = 1
+  MaxInstalls = 1
+  Snap0Set = {"none", "pred", "cur"}
+  SnapKeeps = TRUE
   Mut = "none"
 CHECK_DEADLOCK FALSE
